@@ -46,7 +46,8 @@ Record sst := { procs : id -> option prec;       (* Registry.lookup, and the sta
                 runs : id -> nat;                (* Producer invocations per id so far *)
                 dups : id -> nat;                (* ActorDuplicateIdEvents per id so far *)
                 recvd : list (id * nat * msg);   (* user messages handled: (id, incarnation, message) *)
-                gate : option (id * id);         (* a shutdown of [fst] is held open inside Stopped of [snd] *)
+                gate : option (id * id * list id);   (* a shutdown of the first is held open inside Stopped of the second;
+                                                        the third is the line of descent from the one to the other *)
                 bad : bool }.                    (* an operation outside the modelled domain was issued *)
 
 Definition sinit : sst :=
@@ -147,8 +148,11 @@ Definition set_stopping (s : sst) (l : list id) (b : bool) : sst :=
                        | None => None end;
      kids := kids s; runs := runs s; dups := dups s; recvd := recvd s; gate := gate s; bad := bad s |}.
 
-Definition set_gate (s : sst) (g : option (id * id)) : sst :=
+Definition set_gate (s : sst) (g : option (id * id * list id)) : sst :=
   {| procs := procs s; kids := kids s; runs := runs s; dups := dups s; recvd := recvd s; gate := g; bad := bad s |}.
+
+Definition blocked_at (s : sst) (i : id) : bool :=
+  match procs s i with Some r => p_blocked r | None => false end.
 
 Definition busy (s : sst) (i : id) : bool :=       (* live, and unable to handle a message now *)
   match procs s i with Some r => p_blocked r || p_stopping r | None => false end.
@@ -196,18 +200,19 @@ Definition sstep (s : sst) (o : sop) : sst :=
       | None, Some l =>
           if negb (is_live s i) || existsb (busy s) l then set_bad s else
           let s1 := foldl (stop_tree FUEL) s (kids s g) in
-          set_gate (set_stopping s1 l true) (Some (i, g))
+          set_gate (set_stopping s1 l true) (Some (i, g, l))
       | _, _ => set_bad s
       end
   | OStopEnd i g =>
-      match gate s, line FUEL s i g with
-      | Some (i', g'), Some l =>
+      match gate s with
+      | Some (i', g', l) =>
           (* the children loops of the actors on the line have run already (each is waiting for the
-             next one's poison pill): what is left is the tail of each cleanup, from g upwards *)
-          if Nat.eqb i i' && Nat.eqb g g'
+             next one's poison pill): what is left is the tail of each cleanup, from g upwards.  An
+             actor on the line that sits in a gated handler would be outside the domain. *)
+          if Nat.eqb i i' && Nat.eqb g g' && negb (existsb (blocked_at s) l)
           then foldl remove_proc (set_gate (set_stopping s l false) None) (rev l)
           else set_bad s
-      | _, _ => set_bad s
+      | None => set_bad s
       end
   | ORace i n => Nat.iter n (fun s' => spawn s' i None) s      (* in whatever order: one winner at most *)
   end.
